@@ -451,7 +451,13 @@ class GcodeHandlers(object):
                     # Note: 1.0 Marlin and earlier stored an offset for E instead of directly
                     #   updating the position.
                     # This assumes the newer behavior
-                    position.E_AXIS.setLogicalPosition(value)
+                    # The value is always an absolute position, even if the extruder is currently
+                    # in relative mode
+                    eAxis = position.E_AXIS
+                    absoluteMode = eAxis.absoluteMode
+                    eAxis.absoluteMode = True
+                    eAxis.setLogicalPosition(value)
+                    eAxis.absoluteMode = absoluteMode
                 elif (label == "X"):
                     position.X_AXIS.setLogicalOffsetPosition(value)
                 elif (label == "Y"):
